@@ -1,3 +1,4 @@
+@dt.setter
 def spec(self, value):
     DelayedMixin.dt.fset(self, value)
     self.clear()
